@@ -4,6 +4,7 @@ Every generator takes a `random.Random` and a size `n` and is a pure function of
 Only the stdlib and the independent codec /verif/harness/py/ber.py are used.
 """
 import itertools
+import re
 import sys
 
 sys.path.insert(0, "/verif/harness/py")
@@ -47,7 +48,10 @@ def len_octets(n, lenform=None):
 
 
 def tlv(tag, content, lenform=None):
-    return bytes((tag,)) + len_octets(len(content), lenform) + content
+    n = len(content)
+    if lenform is None and n < 128:
+        return bytes((tag, n)) + content
+    return bytes((tag,)) + len_octets(n, lenform) + content
 
 
 def _lenform(rng, n, p=0.15):
@@ -433,7 +437,13 @@ def lines_hdr(rng, n):
             if rng.random() < 0.25:
                 d = d + rng.randbytes(_ri(rng, 1, 3))
         elif r < 0.8:
-            d = mutate(rng, _pick(rng, vals))
+            d = _pick(rng, vals)
+            if rng.random() < 0.3:
+                d = d[:int(rng.random() * len(d))]        # the header decoder only fails on short input
+            else:
+                d = mutate(rng, d)
+                if rng.random() < 0.5:
+                    d = mutate(rng, d)
         else:
             d = malformed(rng)
         out.append("hdr " + hx(d))
@@ -561,6 +571,8 @@ def mutate_inner(rng, tree):
 
 def break_tree(rng, tree):
     """structure-level malformation: drop / swap / duplicate a child, or retag a constructed node"""
+    if tree.__class__ is bytes:
+        return tree[:int(rng.random() * len(tree))]
     nodes = [tree] + [k[i] for k, i in _slots(tree, []) if k[i].__class__ is not bytes]
     nodes = [x for x in nodes if x[1]]
     if not nodes:
@@ -817,7 +829,554 @@ def lines_topy(rng, n):
     return out
 
 
-# @@PART3@@
+# ---------------------------------------------------------------- 5b. messages
+
+VERSIONS = (0, 1, 3, 2, 257, 256, -1, 2 ** 32 + 1)
+_COMMUNITIES = (b"", b"public", b"public", b"private", b"x" * 200, b"\x00\xff", b"c" * 127, b"c" * 128)
+_ENGINE_IDS = (b"", b"\x80\x00\x1f\x88\x04", bytes(range(32)), b"\x80\x00\x1f\x88\x80\x5b\x4e\x2f\x63\x00\x00\x00\x00")
+_USERS = (b"", b"admin", b"user20", b"u" * 32, b"\xd0\xb0\xd0\xb4\xd0\xbc", b"n" * 130)
+_BOOTS = (0, 1, 2 ** 31 - 1, 2 ** 31, 2 ** 32 - 1, 2 ** 32, -1, -(2 ** 31), 12345, I64_MAX, I64_MIN)
+_MSG_IDS = (0, 1, 2 ** 31 - 1, 2 ** 31, -1, 37320, 2 ** 32, I64_MAX, I64_MIN)
+_MAX_SIZES = (0, 484, 1472, 2048, 65507, 2 ** 31 - 1, -1, 2 ** 40)
+
+
+def _ver_tlv(rng, want):
+    v = want if rng.random() < 0.88 else _pick(rng, VERSIONS)
+    return int_tlv(v, 1 if rng.random() < 0.03 else 0)
+
+
+def _oct(b, rng=None):
+    return tlv(0x04, b)
+
+
+def _community_tree(rng, ver, pdu):
+    return [0x30, [_ver_tlv(rng, ver), _oct(_pick(rng, _COMMUNITIES)), pdu]]
+
+
+def _usm_tree(rng):
+    r = rng.random()
+    auth = b"" if r < 0.4 else rng.randbytes(12) if r < 0.85 else rng.randbytes(_pick(rng, (11, 13, 1, 24)))
+    r = rng.random()
+    priv = b"" if r < 0.5 else rng.randbytes(8) if r < 0.88 else rng.randbytes(_pick(rng, (7, 9, 1, 16)))
+    kids = [_oct(_pick(rng, _ENGINE_IDS)),
+            int_tlv(_pick(rng, _BOOTS) if rng.random() < 0.6 else rng.getrandbits(20)),
+            int_tlv(_pick(rng, _BOOTS) if rng.random() < 0.6 else rng.getrandbits(24)),
+            _oct(_pick(rng, _USERS)), _oct(auth), _oct(priv)]
+    if rng.random() < 0.04:
+        kids.append(_pick(rng, (NULL, b"\x00", b"\x04\x00")))
+    return [0x30, kids]
+
+
+def _scoped_tree(rng, pdu):
+    kids = [_oct(_pick(rng, _ENGINE_IDS)), _oct(_pick(rng, (b"", b"", b"ctx", b"n" * 40))), pdu]
+    if rng.random() < 0.08:
+        kids.append(_pick(rng, (b"\x00", NULL, b"\x00\x00\x00", rng.randbytes(_ri(rng, 1, 6)))))  # e.g. cipher padding
+    return [0x30, kids]
+
+
+def _msgdata_tree(rng, pdu):
+    if rng.random() < 0.3:
+        return _oct(rng.randbytes(_pick(rng, (0, 1, 8, 16, 24, 40, 130))))
+    return _scoped_tree(rng, pdu)
+
+
+def _v3_tree(rng, pdu):
+    r = rng.random()
+    flags = bytes((int(rng.random() * 8),)) if r < 0.9 else b"" if r < 0.94 else rng.randbytes(2) if r < 0.97 \
+        else rng.randbytes(1)
+    sm = 3 if rng.random() < 0.9 else _pick(rng, (259, 0, 1, 2, -1, 3 + 2 ** 32))
+    hdr = [0x30, [int_tlv(_pick(rng, _MSG_IDS) if rng.random() < 0.5 else rng.getrandbits(31)),
+                  int_tlv(_pick(rng, _MAX_SIZES)), _oct(flags), int_tlv(sm)]]
+    if rng.random() < 0.03:
+        hdr[1].append(NULL)
+    usm = [0x04, [_usm_tree(rng)]]
+    if rng.random() < 0.03:
+        usm[1].append(b"\x00")          # trailing byte inside msgSecurityParameters
+    kids = [_ver_tlv(rng, 3), hdr, usm, _msgdata_tree(rng, pdu)]
+    if rng.random() < 0.04:
+        kids.append(_pick(rng, (b"\x00", NULL)))
+    return [0x30, kids]
+
+
+_MSG_KINDS = ("v1", "v2c", "v3")
+
+
+def lines_msg(rng, n):
+    clean, anyv = _pools(rng)
+
+    def pdu():
+        return _pdu_tree(rng, clean if rng.random() < 0.9 else anyv, messy=rng.random() < 0.3)
+
+    out = []
+    for _ in range(n):
+        r = rng.random()
+        if r < 0.30:
+            kind, fn = "v1", lambda: _community_tree(rng, 0, pdu())
+        elif r < 0.55:
+            kind, fn = "v2c", lambda: _community_tree(rng, 1, pdu())
+        elif r < 0.82:
+            kind, fn = "v3", lambda: _v3_tree(rng, pdu())
+        elif r < 0.88:
+            out.append("usm " + hx(_mixed(rng, lambda: _usm_tree(rng))))
+            continue
+        elif r < 0.94:
+            out.append("scoped " + hx(_mixed(rng, lambda: _scoped_tree(rng, pdu()))))
+            continue
+        else:
+            out.append("msgdata " + hx(_mixed(rng, lambda: _msgdata_tree(rng, pdu()))))
+            continue
+        d = _mixed(rng, fn)
+        if rng.random() < 0.12:
+            kind = _pick(rng, _MSG_KINDS)
+        out.append("msg %s %s" % (kind, hx(d)))
+    return out
+
+
+# ---------------------------------------------------------------- 6. walks
+
+WALK_BASES = ("1.3.6", "1.3.6.1.2.1", "0.0", "2.39.4294967295", "1.3.6.128", "1.3.6.1.2.1.2.2.1.10", "1.3.6.1.16383",
+              "2.5", "1.3.6.1.2.1.1")
+WALK_BAD_BASES = ("1", "1.3.", "3.1", "1.40", "a.b", "", ".1.3.6", "1.3.6.4294967296", "1..3")
+_WALK_BASE_CONTENT = {t: oid_text_content(t) for t in WALK_BASES}
+_WALK_MAXREP = (0, 1, 10, 25, -1, I64_MAX, I64_MIN)
+_ARC_ORDER = (b"\x7f", b"\x81\x00", b"\xff\x7f", b"\x81\x80\x00", b"\xff\xff\x7f", b"\x81\x80\x80\x00")  # increasing arcs
+_WALK_VALUES = (b"\x02\x01\x2a", b"\x04\x03abc", b"\x41\x01\x07", b"\x43\x02\x01\x00", b"\x40\x04\x7f\x00\x00\x01",
+                b"\x06\x03\x2b\x06\x01", b"\x46\x01\x09", b"\x04\x00", b"\x02\x00", b"\x09\x00", b"\x01\x01\xff",
+                b"\x06\x00")
+
+
+def _walk_names(rng, base, k):
+    """k names relative to the base content: inside/increasing, repeats, decreasing, outside, padded ..."""
+    names = []
+    cur = base
+    ctr = int(rng.random() * 3)
+    for _ in range(k):
+        r = rng.random()
+        if r < 0.45:                              # inside the subtree, increasing
+            ctr += 1 + int(rng.random() * 2)
+            nm = base + (bytes((ctr,)) if ctr < 128 else base128(ctr))
+            if rng.random() < 0.3:
+                nm += bytes((int(rng.random() * 128),))
+        elif r < 0.52:
+            nm = cur                              # equal to the previous one
+        elif r < 0.59:                            # smaller than the previous one (still inside)
+            nm = base + bytes((max(0, ctr - 1 - int(rng.random() * 2)),))
+        elif r < 0.64:
+            nm = base                             # the base itself
+        elif r < 0.70 and base:                   # sibling / parent / unrelated
+            q = rng.random()
+            if q < 0.4 and base[-1] < 0x7f:
+                nm = base[:-1] + bytes((base[-1] + 1,)) + b"\x01"
+            elif q < 0.7:
+                cut = len(base) - 1
+                while cut > 1 and base[cut - 1] & 0x80:
+                    cut -= 1
+                nm = base[:cut]
+            else:
+                nm = _pick(rng, _NAME_POOL)
+        elif r < 0.78:                            # non-minimal padding of an arc
+            ctr += 1
+            nm = base + b"\x80" * _ri(rng, 1, 2) + bytes((ctr & 0x7f,))
+        elif r < 0.92:                            # multi-octet arcs: byte order != arc order
+            nm = base + _pick(rng, _ARC_ORDER) + (b"" if rng.random() < 0.6 else bytes((int(rng.random() * 128),)))
+        elif r < 0.96 and base:                   # shares bytes with the base but is no arc-wise extension
+            last = base[-1]
+            nm = base[:-1] + bytes((0x80 | (last & 0x7f), 0x00)) if rng.random() < 0.5 else base[:-1] + b"\x81" + base[-1:]
+        else:
+            nm = oid_content(rng)
+        names.append(nm)
+        cur = nm
+    return names
+
+
+def _walk_reply(rng, base, clean, bulk=True):
+    r = rng.random()
+    if r < 0.06:
+        return b"\xa8" + len_octets(4) + rng.randbytes(4)                       # Report
+    if r < 0.12:
+        return enc(_pdu_tree(rng, clean, tag=_pick(rng, (0xa0, 0xa1, 0xa5)), messy=False))   # a request
+    if r < 0.20:
+        return malformed(rng) if rng.random() < 0.5 else enc(_pdu_tree(rng, clean, tag=0xa2, messy=False))[:-2]
+    k = _pick(rng, (0, 1, 1, 1, 1, 2, 3, 4, 5) if bulk else (0, 1, 1, 1, 1, 1, 1, 1, 1, 2, 3))
+    vbs = []
+    for nm in _walk_names(rng, base, k):
+        q = rng.random()
+        if q < 0.55:
+            val = _pick(rng, _WALK_VALUES)
+        elif q < 0.80:
+            val = _pick(rng, _NODATA)
+        else:
+            val = _pick(rng, clean)
+        vbs.append(tlv(0x30, tlv(0x06, nm) + val))
+    body = b"\x02\x02\x12\x34\x02\x01\x00\x02\x01\x00" + tlv(0x30, b"".join(vbs))
+    return tlv(0xa2, body)
+
+
+def lines_walk(rng, n):
+    clean, _ = _pools(rng, 96)
+    out = []
+    for _ in range(n):
+        if rng.random() < 0.9:
+            text = _pick(rng, WALK_BASES)
+            base = _WALK_BASE_CONTENT[text]
+        else:
+            text = _pick(rng, WALK_BAD_BASES)
+            base = b"\x2b\x06"
+        k = _ri(rng, 1, 6) if rng.random() < 0.97 else 0
+        bulk = rng.random() < 0.5
+        pdus = ",".join([hx(_walk_reply(rng, base, clean, bulk)) for _ in range(k)]) if k else "-"
+        out.append("walk %s %s %d %s" % ("getbulk" if bulk else "getnext", hx(text.encode()),
+                                         _pick(rng, _WALK_MAXREP), pdus))
+    return out
+
+
+# ---------------------------------------------------------------- 7. encoders
+
+def _enc_ints():
+    s = set(I64_BOUNDS)
+    for k in range(1, 9):
+        for b in (2 ** (8 * k - 1), 2 ** (8 * k)):
+            for d in (-2, -1, 0, 1, 2):
+                for v in (b + d, -b + d):
+                    if I64_MIN <= v <= I64_MAX:
+                        s.add(v)
+    return sorted(s)
+
+
+ENC_INTS = _enc_ints()
+
+
+def _i64(rng):
+    if rng.random() < 0.6:
+        return _pick(rng, ENC_INTS)
+    k = 1 + int(rng.random() * 8)
+    return rng.getrandbits(8 * k) - (1 << (8 * k - 1))
+
+
+def lines_encint(rng, n):
+    return ["encint %d" % _i64(rng) for _ in range(n)]
+
+
+_SWEEP = list(range(108, 136)) + list(range(236, 264))
+_OID_BIG = (126, 127, 128, 129, 254, 255, 256, 257, 600, 4070, 4074, 4075, 4076, 4077, 4078, 4080, 4081, 5000)
+
+
+def _oid_of_len(rng, ln):
+    if ln == 0:
+        return b""
+    if ln <= 40 or rng.random() < 0.3:
+        return b"\x2b" + rng.randbytes(ln - 1)
+    return b"\x2b" + bytes((int(rng.random() * 128),)) * (ln - 1)
+
+
+def lines_encoid(rng, n):
+    out = []
+    for _ in range(n):
+        r = rng.random()
+        if r < 0.55:
+            c = oid_content(rng)
+        elif r < 0.85:
+            c = _oid_of_len(rng, _pick(rng, _SWEEP) if rng.random() < 0.7 else _ri(rng, 0, 300))
+        else:
+            c = _oid_of_len(rng, _pick(rng, _OID_BIG))
+        out.append("encoid " + hx(c))
+    return out
+
+
+def _req(rng, budget=None):
+    """REQ text. budget: approximate number of content octets the OIDs should add up to (None = small)"""
+    r = rng.random()
+    if budget is None:
+        if r < 0.6:
+            oids = [oid_content(rng) for _ in range(_pick(rng, (0, 1, 1, 2, 3, 5)))]
+        elif r < 0.9:
+            oids = [_oid_of_len(rng, _pick(rng, _SWEEP)) for _ in range(_pick(rng, (1, 1, 2)))]
+        else:
+            oids = [_oid_of_len(rng, _pick(rng, (0, 1, 127, 128, 255, 256, 600)))]
+    else:
+        k = _pick(rng, (1, 7, 8, 20, 40, 130, 400)) if budget > 600 else 1
+        if budget // k > 600:
+            k = budget // 600 + 1
+        per = 6 if budget // k < 120 else 8        # varbind overhead: 30 L 06 L .. 05 00
+        ln = max(0, budget // k - per)
+        one = _oid_of_len(rng, ln)
+        oids = [one] * (k - 1) + [_oid_of_len(rng, max(0, ln + _ri(rng, -3, 3)))]
+    ol = ",".join([hx(o) for o in oids]) if oids else "-"
+    # a single empty OID would read as the empty list: keep it distinguishable
+    if len(oids) == 1 and not oids[0]:
+        ol = "-"
+    q = rng.random()
+    if q < 0.4:
+        return "get %d %s" % (_i64(rng), ol)
+    if q < 0.7:
+        return "getnext %d %s" % (_i64(rng), ol)
+    return "getbulk %d %d %d %s" % (_i64(rng), _i64(rng) if rng.random() < 0.5 else 0, _i64(rng), ol)
+
+
+def _budget(rng):
+    """total sizes around the 4080-octet buffer"""
+    return _ri(rng, 3900, 4120) if rng.random() < 0.8 else _ri(rng, 600, 3900)
+
+
+def lines_encpdu(rng, n):
+    out = []
+    for _ in range(n):
+        r = rng.random()
+        if r < 0.02:
+            out.append("encnull")
+        elif r < 0.80:
+            out.append("encpdu " + _req(rng))
+        elif r < 0.90:
+            out.append("encpdu " + _req(rng, _budget(rng)))
+        elif r < 0.97:
+            out.append("encscoped %s %s" % (hx(_blob(rng)), _req(rng)))
+        else:
+            out.append("encscoped %s %s" % (hx(_blob(rng)), _req(rng, _budget(rng))))
+    return out
+
+
+_BLOB_LENS = (0, 0, 0, 5, 5, 12, 32, 126, 127, 128, 129, 200, 255, 256)
+
+
+def _blob(rng, big=False):
+    ln = _pick(rng, _BLOB_LENS) if not big else _ri(rng, 3800, 4090)
+    if ln <= 32:
+        return rng.randbytes(ln)
+    return bytes((int(rng.random() * 256),)) * ln
+
+
+def lines_encmsg(rng, n):
+    out = []
+    for _ in range(n):
+        r = rng.random()
+        big = rng.random() < 0.12
+        if r < 0.45:
+            ver = "v1" if r < 0.22 else "v2c"
+            if big and rng.random() < 0.5:
+                out.append("encmsg %s %s %s" % (ver, hx(_blob(rng, True)), _req(rng)))
+            else:
+                c = _pick(rng, _COMMUNITIES) if rng.random() < 0.6 else _blob(rng)
+                out.append("encmsg %s %s %s" % (ver, hx(c), _req(rng, _budget(rng) if big else None)))
+            continue
+        q = rng.random()
+        auth = b"" if q < 0.4 else bytes(12) if q < 0.8 else rng.randbytes(_pick(rng, (11, 12, 24, 1)))
+        q = rng.random()
+        priv = b"" if q < 0.5 else rng.randbytes(8) if q < 0.9 else rng.randbytes(_pick(rng, (7, 16, 1)))
+        which = int(rng.random() * 5) if big else -1
+        eng = _blob(rng, which == 0) if rng.random() < 0.5 or which == 0 else _pick(rng, _ENGINE_IDS)
+        user = _blob(rng, which == 1) if rng.random() < 0.3 or which == 1 else _pick(rng, _USERS)
+        head = "encmsg v3 %d %d %d %d %s %d %d %s %s %s" % (
+            _i64(rng) if rng.random() < 0.5 else rng.getrandbits(31), rng.random() < 0.5, rng.random() < 0.4,
+            rng.random() < 0.3, hx(eng), _i64(rng) if rng.random() < 0.5 else rng.getrandbits(16),
+            _i64(rng) if rng.random() < 0.5 else rng.getrandbits(24), hx(user), hx(auth), hx(priv))
+        if rng.random() < 0.3:
+            ct = _blob(rng, which == 2) if rng.random() < 0.5 or which == 2 else rng.randbytes(_pick(rng, (0, 8, 16, 40)))
+            out.append("%s enc %s" % (head, hx(ct)))
+        else:
+            ctx = _blob(rng, which == 3) if rng.random() < 0.4 or which == 3 else _pick(rng, _ENGINE_IDS)
+            out.append("%s plain %s %s" % (head, hx(ctx), _req(rng, _budget(rng) if which == 4 else None)))
+    return out
+
+
+# ---------------------------------------------------------------- 7b. buffer op sequences
+
+_PUSH_SIZES = (0, 1, 1, 2, 3, 5, 127, 128, 255, 256, 1000, 4079, 4080, 4081)
+_TAGLEN_VALS = (0, 1, 127, 128, 255, 256, 65535, 65536, 2 ** 32, 2 ** 64 - 1)
+BUF_CAP = 4080
+
+
+def _payload(rng, ln):
+    if ln <= 8:
+        return rng.randbytes(ln)
+    return bytes((int(rng.random() * 256),)) * ln
+
+
+def lines_buf(rng, n):
+    out = []
+    for _ in range(n):
+        k = _ri(rng, 1, 30) if rng.random() < 0.7 else _ri(rng, 1, 6)
+        ops = []
+        dirty = False          # a bare skip exposed unwritten cells: no `data` until reset
+        fill = rng.random() < 0.35     # try to run into the end of the buffer
+        used = 0               # estimate of len(), used to aim at the capacity
+        bigs = 0
+        for _ in range(k):
+            r = rng.random()
+            if r < 0.30:
+                if fill and bigs < 3 and rng.random() < 0.6:
+                    ln = max(0, BUF_CAP - used + _pick(rng, (-4, -3, -2, -1, 0, 1, 2, -130, -300)))
+                    if ln > 300:
+                        bigs += 1
+                elif bigs < 3:
+                    ln = _pick(rng, _PUSH_SIZES)
+                    if ln >= 1000:
+                        bigs += 1
+                else:
+                    ln = _ri(rng, 0, 6)
+                if rng.random() < 0.75:
+                    ops.append("push:" + hx(_payload(rng, ln)))
+                    if used + ln <= BUF_CAP:
+                        used += ln
+                else:
+                    ops.append("skipfill:" + hx(_payload(rng, ln)))
+                    used = min(BUF_CAP, used + ln)
+            elif r < 0.42:
+                ops.append("u8:%d" % int(rng.random() * 256))
+                used = min(BUF_CAP, used + 1)
+            elif r < 0.54:
+                v = _pick(rng, _TAGLEN_VALS) if rng.random() < 0.8 else _ri(rng, 0, 70000)
+                ops.append("taglen:%d:%d" % (int(rng.random() * 256), v))
+                used = min(BUF_CAP, used + (2 if v < 128 else 3 if v < 256 else 4))
+            elif r < 0.64:
+                ln = _pick(rng, (0, 1, 2, 127, 128, 255, 256)) if bigs < 3 else 2
+                ops.append("tagged:%d:%s" % (int(rng.random() * 256), hx(_payload(rng, ln))))
+                used = min(BUF_CAP, used + ln + 4)
+            elif r < 0.67:
+                v = _pick(rng, (0, 1, 5, 4079, 4080, 4081, 2 ** 64 - 1)) if rng.random() < 0.7 else _ri(rng, 0, 300)
+                ops.append("skip:%d" % v)
+                used = min(BUF_CAP, used + v)
+                dirty = True
+            elif r < 0.72:
+                ops.append("reset")
+                used, dirty = 0, False
+            elif r < 0.80:
+                q = rng.random()
+                v = _ri(rng, 0, 4) if q < 0.8 else _pick(rng, (16, 4080, 4081, 2 ** 63, 2 ** 64 - 4081, 2 ** 64 - 4080,
+                                                                 2 ** 64 - 1)) if q < 0.9 else _ri(rng, 0, 5000)
+                ops.append("bm:%d" % v)
+            elif r < 0.90:
+                ops.append("getbm")
+            elif not dirty and (used < 600 or rng.random() < 0.3):
+                ops.append("data")
+            else:
+                ops.append("getbm")
+        if not dirty and rng.random() < 0.6:
+            ops.append("data")
+        out.append("buf " + ";".join(ops))
+    return out
+
+
+# ---------------------------------------------------------------- 8. OID text, comparisons, relative OIDs
+
+_ARC_TEXT = ("0", "1", "127", "128", "16383", "16384", "2097151", "2097152", "268435455", "268435456", "4294967295",
+             "2", "3", "6", "39", "40", "255")
+_OIDSTR_BAD = ("", "1", "1..3", ".1.3.6", "1.3.6.", ".", "..", "+1.3", "1.-3", "1.+3.06", "1. 3", " 1.3", "1.3 ", "1.3.a",
+               "a.b", "1.3.4294967296", "1.3.99999999999999999999", "1.3.٣", "1.3.6.1é", "1.3,6", "1.3.0x10",
+               "1.3.6.-0", "1.3.1e3", "iso.3.6", "1.3.+", "1.3.++1", "+1.+3.+6", "01.03.006", "1.3.6.00000000000000000001",
+               "1.3.6.1\t", "1.3.6.1 ", "1.3.6.１", "1.3.6.1_0", "-1.3", "4294967296.1", "1.4294967295",
+               "3.1", "2.40", "1.40", "0.40", "256.1", "2.295", "6.6", "7.0", "4294967295.4294967295")
+
+
+def _oid_text(rng):
+    k = _ri(rng, 0, 10) if rng.random() < 0.93 else _pick(rng, (126, 127, 128, 129, 200))
+    first = _pick(rng, ("0", "1", "1", "1", "2")) if rng.random() < 0.85 else str(_ri(rng, 0, 7))
+    second = _pick(rng, ("0", "3", "3", "39", "40", "255", "6")) if rng.random() < 0.8 else str(_ri(rng, 0, 45))
+    arcs = [first, second]
+    for _ in range(k):
+        arcs.append(_pick(rng, _ARC_TEXT) if rng.random() < 0.5 else str(rng.getrandbits(_pick(rng, (4, 7, 8, 14, 21, 32)))))
+    return ".".join(arcs)
+
+
+def lines_oidstr(rng, n):
+    out = []
+    for _ in range(n):
+        r = rng.random()
+        if r < 0.55:
+            t = _oid_text(rng)
+        elif r < 0.75:
+            t = _pick(rng, _OIDSTR_BAD)
+        else:
+            # textual mutation of a valid OID
+            t = _oid_text(rng)
+            i = int(rng.random() * (len(t) + 1))
+            q = rng.random()
+            if q < 0.4:
+                t = t[:i] + _pick(rng, (".", "+", "-", " ", "a", "..", "٣", "0", "99999999999")) + t[i:]
+            elif q < 0.7:
+                t = t[:i] + t[i + 1:]
+            else:
+                t = t[:i]
+        out.append("oidstr " + hx(t.encode("utf-8")))
+    return out
+
+
+def lines_oidtxt(rng, n):
+    out = []
+    for _ in range(n):
+        r = rng.random()
+        if r < 0.6:
+            c = oid_content(rng)
+        elif r < 0.75:
+            c = bytes((int(rng.random() * 256),)) + b"".join(
+                _pick(rng, ARC_ENC + ARC_ODD) for _ in range(_ri(rng, 0, 6))) + (b"\x81" if rng.random() < 0.3 else b"")
+        elif r < 0.9:
+            c = rng.randbytes(_ri(rng, 0, 12))
+        else:
+            c = bytes(_pick(rng, ALPHABET) for _ in range(_ri(rng, 0, 6)))
+        out.append("oidtxt " + hx(c))
+    return out
+
+
+def _related_pair(rng):
+    a = oid_content(rng) if rng.random() < 0.7 else b"\x2b\x06" + _pick(rng, _ARC_ORDER)
+    r = rng.random()
+    if r < 0.12:
+        b = a
+    elif r < 0.30:
+        b = a + (bytes((int(rng.random() * 128),)) if rng.random() < 0.6 else _pick(rng, ARC_ENC))      # a is a prefix
+    elif r < 0.40:
+        b = a[:int(rng.random() * (len(a) + 1))]                                                        # b is a byte prefix
+    elif r < 0.55 and a:
+        # differ in padding only
+        i = 1 + int(rng.random() * len(a))
+        while i < len(a) and i > 1 and a[i - 1] & 0x80:
+            i += 1
+        b = a[:i] + b"\x80" * _ri(rng, 1, 2) + a[i:] if i < len(a) else a + b"\x80\x00"
+    elif r < 0.75:
+        # arc order vs byte order: same prefix, different multi-octet arcs
+        p = a[:1 + int(rng.random() * len(a))] if a else b"\x2b"
+        while p and p[-1] & 0x80:
+            p = p[:-1]
+        p = p or b"\x2b"
+        a, b = p + _pick(rng, _ARC_ORDER + tuple(ARC_ENC)), p + _pick(rng, _ARC_ORDER + tuple(ARC_ENC))
+    elif r < 0.85 and a:
+        i = int(rng.random() * len(a))
+        b = a[:i] + bytes((a[i] ^ (1 << int(rng.random() * 8)),)) + a[i + 1:]
+    else:
+        b = oid_content(rng)
+    if rng.random() < 0.5:
+        a, b = b, a
+    return a, b
+
+
+def lines_cmp(rng, n, cmparcs=True):
+    out = []
+    for _ in range(n):
+        a, b = _related_pair(rng)
+        op = "cmparcs" if cmparcs and rng.random() < 0.5 else "startswith"
+        out.append("%s %s %s" % (op, hx(a), hx(b)))
+    return out
+
+
+def lines_normalize(rng, n):
+    """`normalize <rel> <oid>`: relative OID content (< 128 octets) applied to a base OID content"""
+    out = []
+    for _ in range(n):
+        base = _pick(rng, _NAME_POOL) if rng.random() < 0.6 else oid_content(rng)
+        r = rng.random()
+        if r < 0.7:
+            rel = _rel_content(rng, base)
+        elif r < 0.9:
+            rel = oid_content(rng)
+        else:
+            rel = rng.randbytes(_pick(rng, (0, 1, 2, 3, 126, 127)))
+        out.append("normalize %s %s" % (hx(rel[:127]), hx(base)))
+    return out
+
+
+STREAMS = ["lines_hdr", "lines_ber", "lines_value", "lines_normalize", "lines_pdu", "lines_topy", "lines_msg",
+           "lines_walk", "lines_encint", "lines_encoid", "lines_encpdu", "lines_encmsg", "lines_buf", "lines_oidstr",
+           "lines_oidtxt", "lines_cmp"]
 
 
 # ---------------------------------------------------------------- 10. statistics
@@ -846,6 +1405,25 @@ def stats(lines, outputs):
     for k, line in enumerate(lines):
         key = (req_kind(line), resp_kind(outputs[k]) if k < len(outputs) else "<missing>")
         h[key] = h.get(key, 0) + 1
+    return h
+
+
+_WALK_SPLIT = re.compile(r";(?=pyok |pyerr |err )")
+
+
+def stats_walk(lines, outputs):
+    """per-reply histogram of the `walk` lines: {("walk <op> reply", kind of ri): count}"""
+    h = {}
+    for k, line in enumerate(lines):
+        if not line.startswith("walk ") or k >= len(outputs) or not outputs[k].startswith("ok "):
+            continue
+        rk = req_kind(line) + " reply"
+        body = outputs[k][3:]
+        if body == "-":
+            continue
+        for ri in _WALK_SPLIT.split(body):
+            key = (rk, resp_kind(ri.rsplit("@", 1)[0]))
+            h[key] = h.get(key, 0) + 1
     return h
 
 
